@@ -29,7 +29,9 @@
 (*                                                                         *)
 (* Not modelled: directories as sources (cp -r), DOWNLOAD, remote back     *)
 (* ends, TARBALL on output (no stager acts on it), two directives naming   *)
-(* the same target, targets that exist before staging (overwrite).         *)
+(* the same target.  Targets that exist before staging are modelled for    *)
+(* the input side (stale file at an absolute target, same-named file in    *)
+(* the agent's working directory, existing directory).                     *)
 (***************************************************************************)
 EXTENDS Naturals, Sequences, FiniteSets, TLC
 
@@ -37,6 +39,7 @@ CONSTANTS DevTarballSkipped,      \* D11: agent input stager drops TARBALL befor
           DevCopyIgnoresStatus,   \* D12: local copy ignores the exit status of cp
           DevClientSkipsOnError,  \* client output stager ignores stage_on_error
           DevCopyUnquoted,        \* cp command line built by interpolation: a name with a space is split
+          DevDirTestInCwd,        \* agent input: "target is an existing folder" tested in the working directory
           Scope,                  \* "single" | "pairs" | "hostile" | "all" | "given" (trace monitor)
           Emit                    \* print every case (the rig's enumerator)
 
@@ -63,7 +66,21 @@ Norm(d) == [act |-> d.act,
             s   |-> [k |-> d.sk, p |-> d.sp],
             t   |-> IF d.tk = "omit" THEN [k |-> "rel", p |-> Base(d.sp)]
                     ELSE IF d.tk \in {"empty", "absdir"} THEN [k |-> d.tk, p |-> ""]
+                    ELSE IF d.tk = "absfile" THEN [k |-> "abs", p |-> d.tp]
+                    ELSE IF d.tk \in {"relcwd", "relcwddir"} THEN [k |-> "rel", p |-> d.tp]
                     ELSE [k |-> d.tk, p |-> d.tp]]
+
+\* target exists already: tk = "absfile" is an absolute target path at which a
+\* stale regular file exists, tk = "relcwd" a relative target while the working
+\* directory of the acting component holds a regular file of that name (which
+\* is none of the directive's business: the target is in the task sandbox);
+\* tk = "relcwddir": the same with a DIRECTORY of that name in the working
+\* directory - still none of the directive's business, the task sandbox holds
+\* no such directory; tk = "absdir" is an existing directory that IS the target
+\* (the source's basename goes inside)
+StaleKeys(c) ==
+       {<<"endpoint", c.din[j].tp>> : j \in {i \in 1 .. Len(c.din) : c.din[i].tk = "absfile"}}
+  \cup {<<"cwd", c.din[j].tp>>      : j \in {i \in 1 .. Len(c.din) : c.din[i].tk = "relcwd"}}
 
 NormList(ds) == [j \in 1 .. Len(ds) |-> Norm(ds[j])]
 
@@ -120,6 +137,11 @@ DoCopy(M, id, sk, tk) ==
   IF ~Has(M.fs, sk) THEN Missed(M, id, sk, tk, "nosource", DevCopyIgnoresStatus)
   ELSE IF DevCopyUnquoted /\ (Hostile(sk) \/ Hostile(tk))
   THEN Missed(M, id, sk, tk, "unquoted", DevCopyIgnoresStatus)
+  ELSE IF Has(M.fs, tk)           \* cp writes into the existing file: all its names change
+  THEN [M EXCEPT !.fs  = [x \in DOMAIN M.fs |-> IF M.fs[x].i = M.fs[tk].i
+                                                 THEN [c |-> M.fs[sk].c, i |-> M.fs[tk].i]
+                                                 ELSE M.fs[x]],
+                 !.log = Append(@, Entry(id, "copy", sk, tk, M.fs[sk].c))]
   ELSE [M EXCEPT !.fs  = Put(@, tk, [c |-> M.fs[sk].c, i |-> Ino(M.nx)]),
                  !.nx  = @ + 1,
                  !.log = Append(@, Entry(id, "copy", sk, tk, M.fs[sk].c))]
@@ -214,6 +236,8 @@ InSingles ==
   \cup Rec({"dict"}, {"TARBALL"}, {"rel", "abs", "client", "pilot"}, ISP, {"omit"}, NoTp)
   \cup Rec({"dict"}, CLM, AgentK, ISP, {"rel"} \cup AgentK, TP)
   \cup Rec({"dict"}, CLM, AgentK, ISP, {"omit", "empty", "absdir"}, NoTp)
+  \cup Rec({"dict"}, CLM, {"pilot", "abs"}, ISP, {"absfile", "relcwd", "relcwddir"}, TP)  \* target exists already
+  \cup Rec({"dict"}, {"TRANSFER"}, {"rel"}, {"a", "m"}, {"absfile"}, TP)
 
 OutSingles ==
        Rec({"dict"}, {"TRANSFER"}, {"rel", "task"}, OSP, AnyK, TP)
@@ -244,24 +268,29 @@ CoreOut ==
   \cup Rec({"dict"}, CLM, {"rel"}, {"o", "m"}, {"pilot", "session"}, {"b"})
   \cup Rec({"dict"}, {"TRANSFER"}, {"pilot"}, {"b"}, {"client"}, {"t/b"})
 
+\* every task outcome: DONE, FAILED, CANCELED (target_state as the executor
+\* sets it: exit code, or its cancel path while the task runs)
 Outcomes == {[oc |-> "DONE", soe |-> FALSE], [oc |-> "FAILED", soe |-> FALSE],
-             [oc |-> "FAILED", soe |-> TRUE], [oc |-> "DONE", soe |-> TRUE]}
+             [oc |-> "FAILED", soe |-> TRUE], [oc |-> "DONE", soe |-> TRUE],
+             [oc |-> "CANCELED", soe |-> FALSE], [oc |-> "CANCELED", soe |-> TRUE]}
 Outcomes2 == {[oc |-> "DONE", soe |-> FALSE], [oc |-> "FAILED", soe |-> FALSE],
-              [oc |-> "FAILED", soe |-> TRUE]}
+              [oc |-> "FAILED", soe |-> TRUE], [oc |-> "CANCELED", soe |-> FALSE]}
 
 Case(di, do, x) == [din |-> di, dout |-> do, oc |-> x.oc, soe |-> x.soe]
 Ok1 == [oc |-> "DONE", soe |-> FALSE]
 
 SingleCases ==
        {Case(<<d>>, <<>>, Ok1) : d \in InSingles}
-  \cup {Case(<<>>, <<d>>, x) : d \in OutSingles, x \in Outcomes}
+  \cup {Case(<<>>, <<d>>, x) : d \in {e \in OutSingles : e.form = "dict"}, x \in Outcomes}
+  \cup {Case(<<>>, <<d>>, x) : d \in {e \in OutSingles : e.form # "dict"}, x \in Outcomes2}
   \cup {Case(<<>>, <<>>, x) : x \in Outcomes}
 
 PairCases ==
        {Case(<<d1, d2>>, <<>>, Ok1) : d1 \in CoreIn, d2 \in CoreIn}
   \cup {Case(<<>>, <<d1, d2>>, x) : d1 \in CoreOut, d2 \in CoreOut, x \in Outcomes2}
   \cup {Case(<<d1>>, <<d2>>, x) : d1 \in CoreIn, d2 \in CoreOut,
-                                   x \in {Ok1, [oc |-> "FAILED", soe |-> FALSE]}}
+                                   x \in {Ok1, [oc |-> "FAILED", soe |-> FALSE],
+                                          [oc |-> "CANCELED", soe |-> FALSE]}}
 
 \* a small hostile-name class (a space in the name), reported separately:
 \* the property is about WHERE, not about quoting
@@ -279,6 +308,9 @@ HostileCases ==
 
 InitKeys == {<<l, p>> : l \in NonTask, p \in {"a", "s/a", "ba", "h h"}}
 InitFs   == [k \in InitKeys |-> [c |-> k[1] \o ":" \o k[2], i |-> "init:" \o k[1] \o ":" \o k[2]]]
+InitFsOf(c) == [k \in InitKeys \cup StaleKeys(c) |->
+                  IF k \in InitKeys THEN InitFs[k]
+                  ELSE [c |-> "stale:" \o k[1] \o ":" \o k[2], i |-> "stale:" \o k[1] \o ":" \o k[2]]]
 ExecFiles(t) == IF t = "A" THEN {"o", "s/o"} ELSE {"bo"}
 
 \* lists in which no two directives name the same target, no directive names
@@ -313,16 +345,26 @@ BIn  == << [form |-> "bare", act |-> "TRANSFER", sk |-> "rel",   sp |-> "ba", tk
            [form |-> "dict", act |-> "COPY",     sk |-> "pilot", sp |-> "ba", tk |-> "task", tp |-> "bc"] >>
 BOut == << [form |-> "bare", act |-> "TRANSFER", sk |-> "rel",   sp |-> "bo", tk |-> "omit", tp |-> ""] >>
 
+RawOf(t) == IF t = "A" THEN [din |-> inp.din, dout |-> inp.dout] ELSE [din |-> BIn, dout |-> BOut]
+
+\* what the agent input stager makes of the directive: a relative target is
+\* tested for "exists and is a folder" in the component's working directory
+\* instead of the task sandbox, and then gets the source's basename appended
+NormCode(d) ==
+  IF DevDirTestInCwd /\ d.tk = "relcwddir" /\ d.act \in CLM
+  THEN [Norm(d) EXCEPT !.t = [k |-> "rel", p |-> d.tp \o "/" \o Base(d.sp)]]
+  ELSE Norm(d)
+
 Oc(t)  == IF t = "A" THEN inp.oc ELSE "DONE"
 Soe(t) == t = "A" /\ inp.soe
 
 InitRest ==
   /\ E = [t \in Tasks |-> [din |-> <<>>, dout |-> <<>>]]
-  /\ fs = InitFs /\ nx = 1 /\ log = <<>>
+  /\ fs = InitFsOf(inp) /\ nx = 1 /\ log = <<>>
   /\ tar = [t \in Tasks |-> <<>>]
   /\ st = [t \in Tasks |-> "ok"]
   /\ passedIn = [t \in Tasks |-> FALSE]
-  /\ stage = "new" /\ snap = InitFs
+  /\ stage = "new" /\ snap = InitFsOf(inp)
 
 DesignInit == /\ inp \in Cases
               /\ (Emit => PrintT(<<"CASE", inp>>))
@@ -342,8 +384,8 @@ ForBoth(F(_, _)) ==
 
 Expand ==
   /\ stage = "new" /\ stage' = "expanded"
-  /\ E' = [t \in Tasks |-> IF t = "A" THEN [din |-> NormList(inp.din), dout |-> NormList(inp.dout)]
-                                      ELSE [din |-> NormList(BIn),     dout |-> NormList(BOut)]]
+  /\ E' = [t \in Tasks |-> [din  |-> [j \in 1 .. Len(RawOf(t).din) |-> NormCode(RawOf(t).din[j])],
+                           dout |-> NormList(RawOf(t).dout)]]
   /\ UNCHANGED <<inp, fs, nx, log, tar, st, passedIn, snap>>
 
 TIn ==
@@ -380,7 +422,10 @@ TOut ==
          one(S, t) == IF S.st[t] # "ok" THEN S ELSE Unpack(S, t, F(Pack(S, t), t))
          S2 == one(one(Cur, "A"), "B") IN
      /\ fs' = S2.fs /\ nx' = S2.nx /\ log' = S2.log /\ tar' = S2.tar
-     /\ st' = [t \in Tasks |-> IF S2.st[t] = "ok" /\ Oc(t) = "DONE" THEN "done" ELSE "failed"]
+     /\ st' = [t \in Tasks |-> IF S2.st[t] # "ok" THEN S2.st[t]
+                                ELSE CASE Oc(t) = "DONE"   -> "done"
+                                       [] Oc(t) = "FAILED" -> "failed"
+                                       [] OTHER            -> "canceled"]
   /\ UNCHANGED <<inp, E, passedIn, snap>>
 
 Next == Expand \/ TIn \/ AIn \/ Exec \/ AOut \/ TOut
@@ -401,12 +446,13 @@ SrcGoneIn(L, n) ==
 
 \* where the documentation says directive j of t goes
 DocTgt(t, dir, j) ==
-  LET n == IF dir = "in" THEN E[t].din[j] ELSE E[t].dout[j] IN TgtKey(SideOf(dir, n.act), n, t)
+  LET n == Norm(IF dir = "in" THEN RawOf(t).din[j] ELSE RawOf(t).dout[j]) IN
+  TgtKey(SideOf(dir, n.act), n, t)
 
 TypeOK ==
   /\ stage \in {"new", "expanded", "tin", "ain", "exec", "aout", "tout"}
-  /\ \A t \in Tasks : st[t] \in {"ok", "failed", "done"}
-  /\ \A k \in DOMAIN fs : k[1] \in NonTask \cup {"taskA", "taskB"}
+  /\ \A t \in Tasks : st[t] \in {"ok", "failed", "done", "canceled"}
+  /\ \A k \in DOMAIN fs : k[1] \in NonTask \cup {"taskA", "taskB", "cwd"}
 
 \* Placed: the named place holds the content the source had
 InvPlaced ==
@@ -435,7 +481,7 @@ Legit(n) == log[n].kind = "missed" /\ log[n].c \in {"nosource", "exists"}
 InvFailureJustified ==
   /\ AfterIn => \A t \in Tasks : ~passedIn[t] =>
         \E n \in 1 .. Len(log) : log[n].t = t /\ log[n].dir = "in" /\ Legit(n)
-  /\ stage = "tout" => \A t \in Tasks : (passedIn[t] /\ Oc(t) = "DONE" /\ st[t] = "failed") =>
+  /\ stage = "tout" => \A t \in Tasks : (passedIn[t] /\ Oc(t) # "FAILED" /\ st[t] = "failed") =>
         \E n \in 1 .. Len(log) : log[n].t = t /\ log[n].dir = "out" /\ Legit(n)
 
 InvMoveRemoves ==
@@ -452,14 +498,17 @@ InvLinkShares ==
 \* OutOnlyIfDone: nothing of A's output directives happens after a failed run
 NotB(F) == {k \in DOMAIN F : k[2] \notin {"ba", "bc", "bo"}}
 InvOutOnlyIfDone ==
-  (stage \in {"aout", "tout"} /\ inp.oc = "FAILED" /\ ~inp.soe) =>
+  (stage \in {"aout", "tout"} /\ inp.oc # "DONE" /\ ~inp.soe) =>
      /\ \A n \in 1 .. Len(log) : ~(log[n].t = "A" /\ log[n].dir = "out")
      /\ NotB(fs) = NotB(snap) /\ \A k \in NotB(fs) : fs[k] = snap[k]
+     \* ... and a directive that is not carried out cannot fail: canceled stays canceled
+     /\ (stage = "tout" /\ passedIn["A"]) =>
+           st["A"] = IF inp.oc = "CANCELED" THEN "canceled" ELSE "failed"
 
 \* documented for stage_on_error ("staging is attempted either way"); the
 \* statement of C11 does not demand it - reported as an observation only
 InvStageOnError ==
-  (stage = "tout" /\ inp.oc = "FAILED" /\ inp.soe /\ passedIn["A"]) =>
+  (stage = "tout" /\ inp.oc # "DONE" /\ inp.soe /\ passedIn["A"]) =>
      \/ \E n \in 1 .. Len(log) : log[n].t = "A" /\ log[n].dir = "out" /\ log[n].kind = "missed"
      \/ \A j \in 1 .. Len(E["A"].dout) :
            \E n \in 1 .. Len(log) : log[n].t = "A" /\ log[n].dir = "out" /\ log[n].j = j
